@@ -61,7 +61,7 @@ func main() {
 	case "C01":
 		c.roundTrip(all, n)
 	case "C02":
-		c.encodeSide(c.accepted("maps", "lists", "scalars", "byvalue", "recursive", "spellings", "random", "leaf", "ids", "wide", "defaults"), n, false)
+		c.encodeSide(c.accepted("maps", "lists", "scalars", "byvalue", "recursive", "spellings", "random", "leaf", "ids", "wide", "defaults", "anon"), n, false)
 	case "C03":
 		c.decodeSide(c.accepted("evolution", "evomix", "empty", "recursive", "maps", "lists", "scalars", "byvalue", "ids", "random", "defaults", "wide"), n, false)
 	case "C04":
